@@ -1,6 +1,7 @@
 package main
 
 import (
+	"fmt"
 	"sync"
 
 	"verifharness/hlib"
@@ -78,6 +79,11 @@ func runRegs(o *hlib.Out, hs []Reg, par int) {
 		go func(i int) {
 			defer wg.Done()
 			defer func() { <-sem }()
+			defer func() {
+				if e := recover(); e != nil { // a driver crash is an observation, not a harness failure
+					res[i] = regRes{fmt.Sprintf("(CReg %d (0) [] [[99;900]])", hs[i].Ty), map[string]interface{}{"panic": fmt.Sprint(e)}, false}
+				}
+			}()
 			t, im, nt, _ := runReg(hs[i])
 			res[i] = regRes{t, im, nt}
 		}(i)
